@@ -22,6 +22,12 @@ def refs : UExpr → List UId
   | .mul a b | .div a b => a.refs ++ b.refs
   | .pow a _ | .root a _ | .pfx _ a => a.refs
 
+def pfxs : UExpr → List Pfx
+  | .ref _ => []
+  | .mul a b | .div a b => a.pfxs ++ b.pfxs
+  | .pow a _ | .root a _ => a.pfxs
+  | .pfx p a => p :: a.pfxs
+
 /-- Evaluate left to right, the way Python evaluates the operands of a binary operator. -/
 def eval (s : St) : UExpr → St × Except Exc UId
   | .ref i => (s, .ok i)
@@ -64,6 +70,30 @@ def dimDenote (base : St) : UExpr → Option Dim
       | .ok d => pure d
       | .error _ => none
   | .pfx _ a => dimDenote base a
+
+end UExpr
+end Measured
+
+namespace Measured
+namespace UExpr
+
+/-- The prefix an expression denotes (same-base algebra of `Pfx`). -/
+def pfxDenote (base : St) : UExpr → Except Exc Pfx
+  | .ref i => .ok (base.unit! i).pfx
+  | .mul a b => do let x ← pfxDenote base a; let y ← pfxDenote base b; Pfx.mul x y
+  | .div a b => do let x ← pfxDenote base a; let y ← pfxDenote base b; Pfx.div x y
+  | .pow a n => do let x ← pfxDenote base a; pure (x.pow n)
+  | .root a n => do let x ← pfxDenote base a; if n == 0 then pure Pfx.identity else x.root n
+  | .pfx p a => do let x ← pfxDenote base a; Pfx.mul x p
+
+/-- The finite map base-unit ↦ exponent an expression denotes (free abelian group). -/
+def expDenote (base : St) : UExpr → UId → Int
+  | .ref i, k => (base.unit! i).factors.foldr (fun f acc => (if f.1 = k then f.2 else 0) + acc) 0
+  | .mul a b, k => expDenote base a k + expDenote base b k
+  | .div a b, k => expDenote base a k - expDenote base b k
+  | .pow a n, k => expDenote base a k * n
+  | .root a n, k => if n = 0 then 0 else Int.fdiv (expDenote base a k) n
+  | .pfx _ a, k => expDenote base a k
 
 end UExpr
 end Measured
